@@ -15,9 +15,14 @@ type vsChooser func(alive []int, all int, lastTid int, lastEv *vsEvent) int
 // vsDrive steps threads until all are done or maxSteps is reached.  afterStep is called after
 // every step with the step index.
 func vsDrive(threads []*vsThread, choose vsChooser, maxSteps int, afterStep func(i int, rec vsStepRec)) (steps []vsStepRec, finished bool) {
+	// threads started by instrumented code (gopool.Go) join the pool dynamically
+	dyn := len(threads) == 0
 	last := -1
 	var lastEv *vsEvent
 	for i := 0; i < maxSteps; i++ {
+		if dyn {
+			threads = vs.threads
+		}
 		al := vsAlive(threads)
 		if len(al) == 0 {
 			return steps, true
@@ -38,6 +43,9 @@ func vsDrive(threads []*vsThread, choose vsChooser, maxSteps int, afterStep func
 		if afterStep != nil {
 			afterStep(i, rec)
 		}
+	}
+	if dyn {
+		threads = vs.threads
 	}
 	return steps, len(vsAlive(threads)) == 0
 }
